@@ -278,6 +278,32 @@ for _pid, _t in ADDED.items():
     CLAIMED[_pid]["text"] += " " + _t
     CLAIMED[_pid]["technique"] += "; partial evaluation of guards, sibling isomorphism, CFG must-pass-through and who-may-call rules over the same extractor"
 
+# rules added in round 7 (2026-10-04 evening)
+ADDED7 = {
+ "C02": "(Q12) every pass built on the iteration-limited dataflow engine drops the sets when the engine stopped at its limit (CFG, 7 callers); "
+        "(Q13) the inliner never substitutes, at its use, an argument that reads updatable storage or is a call (inlUseParam evaluated per argument form by rules/tageval.py).",
+ "C03": "(T14) every way of entering a chunk of the interpreter's value stack stores the old stack pointer in the chunk (CFG of stackChain).",
+ "C04": "(B9) the value of bintSmall(b) is used only where b is proved immediate (all 9 uses in the compiler; rules/immed.py).",
+ "C05": "(W12) the text form (.fm) writes every operand from the node, the only placeholder allowed being a Decl's symbol-meaning number; "
+        "(W13) the reader of the portable float form recognises exactly the two reserved exponents the writer uses (NaN/infinity with the fraction kept, zero by equality); "
+        "(W14) integers of the text form are converted with a proof of immediacy or in full.",
+ "C06": "(S11) the assign-and-define / assign-and-reference diagnostics are decided per name, after the walk over the name's signatures, from the per-name accumulators.",
+ "C07": "(K15) the format argument of all 2406 printf-style calls is program text (literal, catalogue message, or a local/global/table holding one; wrappers by fixpoint); "
+        "(K16) the parser's stack limit, the only bound on the nesting depth handed to the recursive passes, is not above the confirmed value; "
+        "K3's guarded success exit must read an error count that no function resets.",
+ "C08": "D3 also covers the working directory, links, host and user (getcwd, realpath, readlink, gethostname, getuid, ...).",
+ "C09": "(G8, written, armed once its report on the unchanged tree is triaged) a piece is not flagged free before a call that may collect unless it is linked.",
+ "C10": "(T-stale) no local copy of allocator state that the sweep rebuilds (free-list heads, page map, heap bounds) is used across a call that may start a collection (call graph of store.c + CFG; 80 copies).",
+ "C11": "(N6) in step D3 of iintDivide no path from a carry step into the partial remainder reaches the quotient-digit comparison without reading the carry; a D3 without carry steps is refused (exit 2).",
+ "C12": "(J13) a big-integer constant is written as an integer literal (printed with %d) only when its bit length is at most 31.",
+ "C13": "(U6) adding a meaning to a symbol-table entry is preceded on every path by the cache invalidation; the undo of a rejected step removes its meanings from every slot and the pending list with one predicate and resets every cached answer.",
+ "C16": "(M8) the declaration text buffer of the C printer is used by its opener only while no callee can have closed it.",
+ "C19": "(L6) = C05-W13: reserved exponents of the portable float form.",
+ "C20": "(V9) a low-bits mask whose count is a remainder modulo the word size is never built for a zero remainder (tail of the last bit-vector word).",
+}
+for _pid, _t in ADDED7.items():
+    CLAIMED[_pid]["text"] += " Round 7: " + _t
+
 def main():
     checks = []
     for pid in sorted(CLAIMED):
